@@ -53,7 +53,7 @@ func splitLast(r string) string {
 // inert: every string / safe-typed leaf becomes "x" ("" if it was empty): same control path, inert content
 func (v *Val) inert() *Val {
 	switch v.Kind {
-	case "s", "t":
+	case "s", "t", "g":
 		s := "x"
 		if v.S == "" {
 			s = ""
@@ -83,7 +83,7 @@ var benignOf = map[string]string{"H": "x", "S": "x", "Y": "x:y;", "E": "x{}", "U
 
 func (v *Val) inertTyped() *Val {
 	switch v.Kind {
-	case "s":
+	case "s", "g":
 		s := "x"
 		if v.S == "" {
 			s = ""
@@ -176,7 +176,11 @@ var benignTyped = []*Val{
 }
 
 func (c *Ctx) untrustedLeaf() *Val {
-	switch r := c.rng.Intn(12); {
+	switch r := c.rng.Intn(14); {
+	case r >= 13:
+		return &Val{Kind: "p", P: &Val{Kind: "g", S: nonEmpty(c.hostile())}}
+	case r >= 12:
+		return &Val{Kind: "g", S: nonEmpty(c.hostile())}
 	case r < 8:
 		return &Val{Kind: "s", S: c.hostile()}
 	case r < 10:
@@ -222,6 +226,12 @@ var c01Special = []string{
 	"<p title=\"a &lt; b\">", "&amp;{{.X}}", "<p\ttitle\n=\r\"{{.X}}\"\f>", "<img src=\"/a.png\" alt=\"{{.X}}\"/>", "<p title='{{.X}}' lang=\"{{.Y}}\">",
 	"{{range .L}}<li>{{.}}</li>{{end}}", "{{with .M}}<i title=\"{{.X}}\">{{.X}}</i>{{end}}", "{{template \"h0\" .}}", "<b>{{template \"h1\" .}}</b>",
 	"<!-- off: {{template \"h0\" .}} -->", "<p><!--{{template \"h1\" .}}--></p>", "<!-- {{.X}} {{template \"h2\" .}}-->",
+	// {{break}} / {{continue}} leave a loop in the context of the break point, not of the end of the body
+	"{{range .L}}<li title=\"{{.}}{{if .}}{{break}}{{end}}\">x</li>{{end}}{{.X}}", "{{range .L}}<li {{if .}}{{break}}{{end}}class=\"c\">{{end}}{{.X}}",
+	"<ul>{{range .L}}<li {{if .}}{{break}}{{end}}>a</li>{{range .L}}b{{end}}{{end}}{{.X}}</ul>", "{{range .L}}<b>{{if .}}{{continue}}{{end}}</b><i {{end}}{{.X}}>",
+	"{{range .L}}<script>{{if .}}{{break}}{{end}}</script>{{end}}<p>{{.X}}</p>", "{{range .L}}<!--{{if .}}{{break}}{{end}}-->{{end}}{{.X}}",
+	// a loop body that ends in the context it started in but chooses different elements / prefixes per iteration
+	"<img {{range .L}}title=\"{{.}}\"{{if $.C}}><textarea {{else}}><img {{end}}{{end}}>", "{{range .L}}{{.}}<textarea>{{else}}<textarea>{{end}}</textarea>",
 	// characters that Unicode calls white space but an HTML tokenizer does not
 	"<a title=\u3000\"{{.X}}\">", "<a\u3000title=\"{{.X}}\">", "<a title=\x0b\"{{.X}}\">", "<p title=\u00a0'{{.X}}'>", "<p title\u2028=\"{{.X}}\">", "<p\x0btitle=\"{{.X}}\">x</p>",
 	"<p title=\x85\"{{.X}}\">", "<a title=\u3000{{.X}}>",
@@ -350,7 +360,7 @@ var c02Prefixes = []string{"", "", "", "/", "/p/", "/p?q=", "#", "https://ok.exa
 
 func (c *Ctx) c02Text() (string, string) {
 	q := pick(c, []string{"\"", "\"", "'"})
-	switch c.rng.Intn(16) {
+	switch c.rng.Intn(17) {
 	case 14: // ambiguous static prefixes: nested branches, and the same prefix seen unambiguously earlier in the set
 		t := pick(c, urlTargets[:10])
 		st := pick(c, []string{"java", "JAVA", "j", "javascript", "javascript:"})
@@ -364,6 +374,17 @@ func (c *Ctx) c02Text() (string, string) {
 			"{{with .Z}}{{else}}" + st + "{{end}}{{.B}}",
 		})
 		return "<" + t[0] + " " + t[1] + "=" + q + form + q + ">", "ambig-prefix"
+	case 16: // break / continue; loop re-entry with different element names, prefixes or contexts
+		return pick(c, []string{
+			"{{range .P}}<script>{{if .}}{{break}}{{end}}</script>{{end}}<p>{{.X}}</p>",
+			"{{range .P}}<p title=\"a{{if .}}{{break}}{{end}}\">{{end}}{{.X}}\"",
+			"{{range .P}}<a href=\"/x{{if .}}{{continue}}{{end}}\">l</a><script>{{end}}{{.X}}</script>",
+			"<img {{range .P}}src=\"{{$.O}}\"{{if $.C}}><script {{else}}><img {{end}}{{end}}>",
+			"<a href=\"{{range .P}}{{.}}javascript:{{end}}\">go</a>",
+			"{{range .P}}{{$.X}}<script>{{else}}<script>{{end}}</script>",
+			"{{range .P}}{{$.X}}<style>{{else}}<style>{{end}}</style>",
+			"<img {{range .P}}><script {{if $.C}}{{break}}{{end}}async=\"async\"></script><img {{end}}src=\"{{.O}}\">",
+		}), "loops"
 	case 15:
 		t := pick(c, urlTargets[:10])
 		pre := pick(c, []string{"https://ok.example/", "/p/", "/p?q=", "//ok.example/"})
@@ -414,7 +435,18 @@ func (c *Ctx) c02Text() (string, string) {
 func (c *Ctx) c02Data() *Val {
 	m := &Val{Kind: "m", M: map[string]*Val{}}
 	put := func(k string, v *Val) { m.Keys = append(m.Keys, k); m.M[k] = v }
-	s := func(x string) *Val { return &Val{Kind: "s", S: x} }
+	s := func(x string) *Val {
+		// sometimes a value of numeric / bool kind whose String() or Error() gives the text, or a pointer to one
+		if x != "" {
+			switch c.rng.Intn(12) {
+			case 0:
+				return &Val{Kind: "g", S: x}
+			case 1:
+				return &Val{Kind: "p", P: &Val{Kind: "g", S: x}}
+			}
+		}
+		return &Val{Kind: "s", S: x}
+	}
 	put("X", s(pick(c, dangerous)))
 	sp := pick(c, splitPairs)
 	put("A", s(sp[0]))
